@@ -149,7 +149,8 @@ def gen_date(rng, month_lo, month_hi):
 
 
 TIMES = [0, 3600, 7200, 7200, 7200, 10800, 1800, 5400, 9000, 86400, 90000, 79200, 84600, 9015, 1,
-         3599, 93600, 26 * 3600, 47 * 3600, 100 * 3600, 167 * 3600 + 59 * 60 + 59, 45 * 60]
+         3599, 93600, 26 * 3600, 47 * 3600, 100 * 3600, 167 * 3600 + 59 * 60 + 59, 45 * 60,
+         7200, 10800, 14400, 3600, 7200, 12600, 18000, 36000, 43200, 7200]
 
 
 def gen_rule(rng, std_only_p=0.08):
@@ -158,7 +159,9 @@ def gen_rule(rng, std_only_p=0.08):
                       12 * 3600 + 45 * 60, -9 * 3600 - 30 * 60, 50400, -43200, 60, -60, 79140, -86340])
     if rng.random() < std_only_p:
         return {"name": name, "off": off, "dst": None}
-    saving = rng.choice([3600, 3600, 3600, 1800, 7200, 1200, 5400])
+    saving = rng.choice([3600, 3600, 3600, 1800, 7200, 1200, 5400, 3600, 3600, -3600, -1800])
+    if not (-86400 < off + saving < 86400):
+        saving = 3600 if off < 0 else -3600
     if rng.random() < 0.5:      # northern
         s = gen_date(rng, 2, 5)
         e = gen_date(rng, 8, 11)
